@@ -7,7 +7,7 @@ entries below it are re-keyed by prefix substitution, same descriptors, both map
 IN_IGNORED => pruned; non-recursive => no watch is ever added.  Not decided: that the event view equals the disk at
 quiescence (needs the kernel and the pacing condition, C01)."""
 from __future__ import annotations
-from specs.inotify_read import IRWorld, AddDirWatch, AddWatch, ReadEvents, string_lemmas, FILE
+from specs.inotify_read import IRWorld, AddDirWatch, AddWatch, ForgetPaths, ReadEvents, string_lemmas, FILE
 
 PROP = "C02"
 GROUNDABLE = True
@@ -17,7 +17,7 @@ BATTERY = "c02_battery.py"
 
 def make_specs():
     W = IRWorld()
-    out = [AddWatch(W, PROP), AddDirWatch(W, PROP), ReadEvents(W, PROP, want=("maps",))]
+    out = [AddWatch(W, PROP), AddDirWatch(W, PROP), ForgetPaths(W, PROP), ReadEvents(W, PROP, want=("maps",))]
     # "under a non-recursive watch ... changes any deeper never are": the emitter walks nothing for a non-recursive watch
     from specs import inotify_emitter
     out.append(inotify_emitter.QueueEvents(inotify_emitter.World(), PROP, want=("nonrec",)))
@@ -31,8 +31,9 @@ def lemmas():
 EXPECTED_CLAUSES = ["_add_dir_watch.post[recursive: every directory found under the root is watched", "_add_dir_watch.post[non-recursive: only the root is watched]", "_add_watch.post[path -> descriptor recorded",
                     "read_events.record[IN_CREATE of a directory under a recursive watch", "read_events.record[second half of the rename of a watched directory", "read_events.record[IN_IGNORED",
                     "read_events.loop6.preserved[every visited key below the old path is re-keyed by prefix substitution", "read_events.loop6.preserved[keys outside both trees are untouched]",
-                    "read_events.record[watches are added only by a recursive instance", "read_events.loop5.preserved[move records of earlier batches are kept", "read_events.simulated[file: at most one made-up record", "read_events.simulated[directory: at most one made-up record", "read_events.record[a directory that arrives without a known watched source", "_add_dir_watch.raises[path entries only accumulate]", "read_events.record[the event handed on carries the record's fields and the current path", "lemma[replace(a, b, 1) on a string with prefix a is prefix substitution]"]
+                    "read_events.record[watches are added only by a recursive instance", "read_events.loop5.preserved[move records of earlier batches are kept", "read_events.simulated[file: at most one made-up record", "read_events.simulated[directory: at most one made-up record", "read_events.record[a directory that arrives without a known watched source (moved in", "read_events.record[a directory that arrives without a known watched source: what the path map still held", "_forget_paths.post[exactly the path entries at or below the path are dropped]", "_add_dir_watch.raises[path entries only accumulate]", "read_events.record[the event handed on carries the record's fields and the current path", "lemma[replace(a, b, 1) on a string with prefix a is prefix substitution]"]
 CANARIES = [
+    {"name": "stale path entries under the name of an arriving directory are kept (the repaired defect)", "file": FILE, "fn": "Inotify.read_events", "find": "                        self._forget_paths(inotify_event.src_path)\n", "replace": ""},
     {"name": "an arriving directory without a known source is not watched (the repaired defect)", "file": FILE, "fn": "Inotify.read_events", "find": "                    elif self.is_recursive and inotify_event.is_directory:\n", "replace": "                    elif False:\n"},
     {"name": "forget the move records at the start of every batch", "file": FILE, "fn": "Inotify.read_events", "find": "            event_list = []\n", "replace": "            event_list = []\n            self._moved_from_events = {}\n"},
     {"name": "drop `if recursive:` in _add_dir_watch", "file": FILE, "fn": "Inotify._add_dir_watch", "find": "        if recursive:\n", "replace": "        if True:\n"},
